@@ -129,4 +129,34 @@ PROPS = {
         "rule": "as C08 (1-5 queries: m > 1 in about 80% of cases); the CSV forms are produced by the real updown.List; the real TopRanking is run in all four "
                 "csv/fasta combinations and the four outputs must be byte-identical and not an error",
     },
+    "C12": {
+        "streams": {"C12": (64, 400)},
+        "thorough_seeds": 3,
+        "cli": True,
+        "race": (24, 150),
+        "rule": "16 command variants (snps, snps --aggregate, variants per-sequence / --aggregate / GFF features sharing a start, sam toMultiAlign, toPairAlign to a "
+                "directory and -o stdout through the binary, sam variants per-sequence / --aggregate, closest, closest -n --table, updown list, topranking size / push / csv) "
+                "on inputs of 20-80 records; each case = 5 (quick) or 12 (thorough) runs of the real code with --threads in 1..16, GOMAXPROCS in 1..16 and a fresh seed of the "
+                "verif Jitter hook (sleep/yield before every worker's send); all runs must be byte-identical and none may fail; the same stream is repeated under a "
+                "-race build; non-trivial = every case (each compares several schedules); tag jitter-inverted-an-order = the hook observed an order inversion",
+    },
+    "C18": {
+        "streams": {"C18": (500, 4000)},
+        "thorough_seeds": 3,
+        "cli": True,
+        "rule": "for each of 9 command lines of the gofasta binary a valid input set is built, then one corruption is applied: shortened / lengthened row or non-IUPAC "
+                "symbol at the first, middle or last record of any FASTA input; missing or empty input file; empty SAM; header-less SAM (toMultiAlign); reference and "
+                "alignment / query and target of different widths (both directions); two records in --reference; empty CSV; CSV with a foreign header; windows "
+                "0..L, 1..L+1, L+1.., 5..4, ..0; annotation suffix .txt; topranking without any size/dist option; 1 in 12 cases is left valid and must exit 0; "
+                "required: non-zero exit within 10 s",
+    },
+    "C19": {
+        "streams": {"C19": (250, 2500)},
+        "thorough_seeds": 3,
+        "cli": True,
+        "level": "proof",
+        "rule": "13 entry-point variants (snps, snps --aggregate, variants, variants --aggregate, sam toMultiAlign plain/wrapped, sam variants, closest plain / -n / --table, "
+                "updown list, topranking list / --table) driven in-process with an io.Writer that fails from the k-th Write on, for EVERY k from 1 to the number of writes "
+                "of the run (counted first); sam toPairAlign -o stdout and snps through the binary with stdout on /dev/full; required: an error at every k / non-zero exit",
+    },
 }
